@@ -1089,6 +1089,12 @@ func genForm(rng *rand.Rand, w *wWorld, depth int, cfg chainGenCfg) *wForm {
 			Go: func(*gorm.DB) (interface{}, []interface{}) { return q, nil }}
 	case k < 17 || depth <= 0: // clause.Expression
 		e := genEx(rng, w, 2, cfg.exGenCfg)
+		if !cfg.leadingOr && e.Kind == "and" && len(e.Kids) > 1 && e.Kids[0].isSingleOr() {
+			// an And list that STARTS with a single-member Or is the expression-level spelling of a chain whose first
+			// condition call is Or (when it is the statement's only unit Where.Build swaps that Or behind the next member
+			// and OR-joins it): outside the property's quantifier ("first condition call is not Or"), judged by C08 only
+			e.Kids[0] = e.Kids[0].Kids[0]
+		}
 		return &wForm{Kind: "expr", Ex: e, GoDesc: "expr " + canon(e.json()),
 			Go: func(*gorm.DB) (interface{}, []interface{}) { return e.real(), nil }}
 	default: // group: db.Where(db.Where(..).Or(..))
